@@ -16,14 +16,19 @@ TRUSTED = ['Python reference functions per model in props/models.py']
 
 
 def history_obs(mname, length, timeout):
+    from typing import Union
     spec = MODELS[mname]
     M = spec['make']()
     FRESH = spec['make']()
     inputs = spec['inputs']
+    absent = spec.get('absent', [])
+    typed = spec.get('typed', False)
+    VT = Union[int, bool] if typed else int
+    init_inputs = [a for a in inputs if a not in absent]
     fcells = list(spec['formulas'])
     names = spec['names']
     inv_names = {v: k for k, v in names.items()}
-    # operation alphabet: ('set', input index, via_name) / ('eval', formula index, via_name)
+    # operation alphabet: ('set', input, spelling) / ('eval', formula cell, spelling)
     ops = []
     for i, a in enumerate(inputs):
         ops.append(('set', a, a))
@@ -34,17 +39,26 @@ def history_obs(mname, length, timeout):
         if a in inv_names:
             ops.append(('eval', a, inv_names[a]))
     nops = len(ops)
+    nrest = length - 1
+    n_init = len(init_inputs)
+
+    def matches(r, exp):
+        if isinstance(exp, bool):
+            return val(r) is exp or bool_is(r, exp)
+        if isinstance(exp, str):
+            return text_is(r, exp) or (isinstance(r, str) and r == exp)
+        return num_is(r, exp)
 
     def run(first, rest, vals):
         reset(M, spec)
         reset(FRESH, spec)
         ev = Evaluator(M)
         cur = {}
-        for a, v in zip(inputs, vals[:len(inputs)]):
+        for a, v in zip(init_inputs, vals[:n_init]):
             ev.set_cell_value(a, v)
             cur[a] = v
         seq = [first] + [concretize(r, 0, nops - 1) for r in rest]
-        k = len(inputs)
+        k = n_init
         for oi in seq:
             kind, addr, spelled = ops[oi]
             if kind == 'set':
@@ -52,78 +66,74 @@ def history_obs(mname, length, timeout):
                 k += 1
                 ev.set_cell_value(spelled, v)
                 cur[addr] = v
-                if not (val(ev.get_cell_value(addr)) == v and val(ev.get_cell_value(spelled)) == v):
+                g1, g2 = ev.get_cell_value(addr), ev.get_cell_value(spelled)
+                if not (val(g1) == v and val(g2) == v):
                     return False
+                if typed and (isinstance(val(g1), bool) != isinstance(v, bool)):
+                    return False          # the value last set, not merely one that compares equal to it
             else:
                 r = ev.evaluate(spelled)
                 exp = spec['formulas'][addr](cur)
-                if not num_is(r, exp):
+                if not matches(r, exp):
                     return False
-                if not (val(ev.get_cell_value(addr)) == exp and val(M.cells[addr].value) == exp):
+                if not (matches(ev.get_cell_value(addr), exp) and matches(M.cells[addr].value, exp)):
                     return False
                 # fresh compiled copy holding the current inputs
                 for a, v in cur.items():
-                    FRESH.cells[a].value = v
+                    Evaluator(FRESH).set_cell_value(a, v) if a not in FRESH.cells else setv(FRESH, a, v)
                 fr = Evaluator(FRESH).evaluate(addr)
-                if not same(fr, r):
+                if not matches(fr, exp):
                     return False
         return True
 
     obs = []
-    nvals = len(inputs) + length
+    nvals = n_init + length
+
+    def in_range(v):
+        return isinstance(v, bool) or -9 <= v <= 99
     for first in range(nops):
-        def mk_h(first):
-            if length == 3:
-                if len(inputs) == 1:
-                    def h(o2: int, o3: int, v0: int, w1: int, w2: int, w3: int) -> bool:
-                        return run(first, (o2, o3), (v0, w1, w2, w3))
-                elif len(inputs) == 2:
-                    def h(o2: int, o3: int, v0: int, v1: int, w1: int, w2: int, w3: int) -> bool:
-                        return run(first, (o2, o3), (v0, v1, w1, w2, w3))
-                else:
-                    def h(o2: int, o3: int, v0: int, v1: int, v2: int, v3: int, w1: int, w2: int, w3: int) -> bool:
-                        return run(first, (o2, o3), (v0, v1, v2, v3, w1, w2, w3))
-                return h, 2
-            if len(inputs) == 1:
-                def h(o2: int, o3: int, o4: int, v0: int, w1: int, w2: int, w3: int, w4: int) -> bool:
-                    return run(first, (o2, o3, o4), (v0, w1, w2, w3, w4))
-            elif len(inputs) == 2:
-                def h(o2: int, o3: int, o4: int, v0: int, v1: int, w1: int, w2: int, w3: int, w4: int) -> bool:
-                    return run(first, (o2, o3, o4), (v0, v1, w1, w2, w3, w4))
-            else:
-                def h(o2: int, o3: int, o4: int, v0: int, v1: int, v2: int, v3: int, w1: int, w2: int, w3: int, w4: int) -> bool:
-                    return run(first, (o2, o3, o4), (v0, v1, v2, v3, w1, w2, w3, w4))
-            return h, 3
-        h, nrest = mk_h(first)
+        params = [(f'o{i + 2}', int) for i in range(nrest)] + [(f'v{i}', VT) for i in range(n_init)] + [(f'w{i + 1}', VT) for i in range(length)]
 
-        def mk_pre(nrest):
-            def pre(*a):
-                for r in a[:nrest]:
-                    if not (0 <= r < nops):
+        def mk_body(first):
+            def body(*a):
+                return run(first, a[:nrest], a[nrest:])
+            return body
+        h = make_fn(mk_body(first), params, name=f'history_{mname}_{first}')
+
+        def pre(*a):
+            for r in a[:nrest]:
+                if not (0 <= r < nops):
+                    return False
+            if typed:
+                for v in a[nrest:]:
+                    if not in_range(v):
                         return False
-                return True
-            return pre
+            return True
 
-        def show(*a, first=first, nrest=nrest):
+        def show(*a, first=first):
             seq = [first] + list(a[:nrest])
             vals = list(a[nrest:])
-            out = ['init ' + ', '.join(f'{x}={v}' for x, v in zip(inputs, vals))]
-            k = len(inputs)
+            out = ['init ' + ', '.join(f'{x}={v!r}' for x, v in zip(init_inputs, vals))]
+            k = n_init
             for oi in seq:
-                kind, addr, sp = ops[oi]
+                kind, addr, sp = ops[oi % nops]
                 if kind == 'set':
-                    out.append(f'set {sp}={vals[k]}')
+                    out.append(f'set {sp}={vals[k]!r}')
                     k += 1
                 else:
                     out.append(f'evaluate {sp}')
             return '; '.join(out)
         last_eval = max(i for i, o in enumerate(ops) if o[0] == 'eval')
         wit = [tuple([last_eval] * nrest) + tuple(range(3, 3 + nvals)), tuple([0] * (nrest - 1) + [last_eval]) + tuple(range(-2, -2 + nvals))]
-        obs.append(Ob(f'c04.history[{mname},len {length},first {ops[first][0]} {ops[first][2]}]', h, pre=mk_pre(nrest), witness=wit, timeout=timeout,
-                      cost=(nops ** nrest) / 12, family=f'c04.history.{mname}',
+        if typed:
+            wit.append(tuple([last_eval, 0][:nrest] + [last_eval] * max(0, nrest - 2)) + (1,) + tuple([True] * length))
+        obs.append(Ob(f'c04.history[{mname},len {length},first {ops[first][0]} {ops[first][2]}]', h, pre=pre, witness=wit, timeout=timeout,
+                      cost=(nops ** nrest) / 12 * (3 if typed else 1), family=f'c04.history.{mname}',
                       bounds=f'model {mname}: all histories of length {length} over {nops} operations (set of each input, also through its defined name; '
                              f'evaluate of each formula cell, also through its defined name), first operation fixed, the others by forking ({nops ** nrest} histories); '
-                             'initial inputs and every written value: all ints',
+                             + ('initial inputs and every written value: int in -9..99 or bool (type forked); type-sensitive dependants ISNUMBER / & / IF' if typed else
+                                'initial inputs and every written value: all ints')
+                             + (f'; the cells {absent} do not exist in the model until a history sets them' if absent else ''),
                       show=show))
     return obs
 
